@@ -696,16 +696,20 @@ def overwrite_case(rep):
     ell, nVar = z3.Ints('ell nVar')
     pre = [ell >= 0, nVar >= 1]
 
-    def fn(c):
+    def fn(c, early=False):
         for a in pre:
             c.add(a)
         FS[0] = FSys()
+        if early:  # the handle exists before the file does (another writer creates the file in between)
+            g = fio.Scalar(np.float64, 'x.pysdc')
+            g.setHeader(nVar=SymInt(nVar))
         F = SymFile()
         F.length = SymInt(ell)
         F.events.append(('w', z3.IntVal(0), ell, 'existing content', None))
         FS[0].files['x.pysdc'] = F
-        g = fio.Scalar(np.float64, 'x.pysdc')
-        g.setHeader(nVar=SymInt(nVar))
+        if not early:
+            g = fio.Scalar(np.float64, 'x.pysdc')
+            g.setHeader(nVar=SymInt(nVar))
         try:
             g.initialize()
             refused = False
@@ -722,24 +726,26 @@ def overwrite_case(rep):
             fio.FieldsIO.ALLOW_OVERWRITE = False
         return dict(refused=refused, untouched=untouched, replaced=replaced)
 
-    paths = explore(fn)
-    rep.paths += len(paths)
-    for i, p in enumerate(paths):
-        r = p.result
-        ok = r['refused'] and r['untouched']
-        rep.ob(f'overwrite/path{i}:existing-file-refused-and-untouched', 'unsat' if ok else 'sat')
-        if not ok:
-            res, m = satisfiable(pre + list(p.pc), name=f'overwrite/path{i}:witness')
-            vals = {'ell': int(model_value(m, ell)), 'nVar': int(model_value(m, nVar))} if res == 'sat' else {'ell': 0, 'nVar': 1}
-            rep.replayed += 1
-            real = real_overwrite(vals['ell'], max(1, min(vals['nVar'], 50)))
-            if real:
-                rep.violation(f'{PID}/overwrite-protection', f'existing file of {vals["ell"]} bytes is overwritten by initialize() of a Scalar handler with nVar={vals["nVar"]} although ALLOW_OVERWRITE is off',
-                              {'task': ['overwrite'], **vals})
-            else:
-                rep.unreproduced(f'overwrite/path{i}', vals)
-        rep.side(f'overwrite/path{i}:allowed-when-enabled', r['replaced'])
-    rep.ob('overwrite:coverage', coverage_certificate(paths, pre, name='overwrite:coverage'))
+    for early in (False, True):
+        tag = 'overwrite' + ('/handle-older-than-file' if early else '')
+        paths = explore(lambda c: fn(c, early))
+        rep.paths += len(paths)
+        for i, p in enumerate(paths):
+            r = p.result
+            ok = r['refused'] and r['untouched']
+            rep.ob(f'{tag}/path{i}:existing-file-refused-and-untouched', 'unsat' if ok else 'sat')
+            if not ok:
+                res, m = satisfiable(pre + list(p.pc), name=f'{tag}/path{i}:witness')
+                vals = {'ell': int(model_value(m, ell)), 'nVar': int(model_value(m, nVar))} if res == 'sat' else {'ell': 0, 'nVar': 1}
+                rep.replayed += 1
+                real = real_overwrite(vals['ell'], max(1, min(vals['nVar'], 50)), early)
+                if real:
+                    rep.violation(f'{PID}/overwrite-protection' + ('/handle-older-than-file' if early else ''), f'existing file of {vals["ell"]} bytes is overwritten by initialize() of a Scalar handler with nVar={vals["nVar"]} although ALLOW_OVERWRITE is off',
+                                  {'task': ['overwrite'], 'early': early, **vals})
+                else:
+                    rep.unreproduced(f'{tag}/path{i}', vals)
+            rep.side(f'{tag}/path{i}:allowed-when-enabled', r['replaced'])
+        rep.ob(tag + ':coverage', coverage_certificate(paths, pre, name=tag + ':coverage'))
     # addField on a handler that was never initialised is rejected
     c = Ctx()
     Ctx.cur = c
@@ -756,8 +762,8 @@ def overwrite_case(rep):
         Ctx.cur = None
 
 
-def real_overwrite(ell, nVar):
-    """True if a real existing file of ell bytes is overwritten by initialize()"""
+def real_overwrite(ell, nVar, early=False):
+    """True if a real existing file of ell bytes is overwritten by initialize() (early: the handle is created before the file)"""
     d = tempfile.mkdtemp(prefix='c16o_', dir='/dev/shm' if os.path.isdir('/dev/shm') else None)
     path = os.path.join(d, 'x.pysdc')
     shadowed = getattr(fio, 'open', None) is sym_open
@@ -765,10 +771,14 @@ def real_overwrite(ell, nVar):
         uninstall()
     try:
         content = bytes((i * 37 + 11) % 256 for i in range(ell))
+        if early:
+            g = fio.Scalar(np.float64, path)
+            g.setHeader(nVar=nVar)
         with open(path, 'wb') as f:
             f.write(content)
-        g = fio.Scalar(np.float64, path)
-        g.setHeader(nVar=nVar)
+        if not early:
+            g = fio.Scalar(np.float64, path)
+            g.setHeader(nVar=nVar)
         try:
             g.initialize()
         except FileExistsError:
@@ -1078,7 +1088,7 @@ def blocks_enum_case(rep):
 def replay(path):
     d = json.load(open(path))['replay']
     if d.get('task') == ['overwrite']:
-        bad = real_overwrite(d['ell'], max(1, min(d['nVar'], 50)))
+        bad = real_overwrite(d['ell'], max(1, min(d['nVar'], 50)), d.get('early', False))
         print('existing file overwritten:', bad)
     elif d.get('task') == ['interleave']:
         bad = real_interleave(d['nVar'], d['k'])
